@@ -903,3 +903,16 @@ for _p in ("C01", "C02", "C03", "C04", "C07", "C09", "C10", "C11"):
     for _prof in ("release", "checked"):
         PLANS[_p]["stages"].append(dict(name=f"hist-{_prof}", kind="vh", stage="hist", profile=_prof,
                                        opts=dict(quick=dict(prop=_p), thorough=dict(prop=_p))))
+
+
+# ---------------------------------------------------------------------------------------------
+# harness flavours: the ordinary stages link the crate WITHOUT its `dudect` feature (as users build it);
+# the stages below repeat the workloads that can tell the difference on a harness built with the feature
+# (it adds the constant-time test entry point, and it is the one feature besides the parameter sets that
+# changes what is compiled into the signing path).
+# ---------------------------------------------------------------------------------------------
+for _p, _stage, _extra in (("C12", "c12", {}), ("C13", "c13", dict(abort_is_violation=True)), ("C10", "c10", {})):
+    for _prof in ("release", "checked"):
+        _d = dict(name=f"{_stage}-{_prof}-dudect", kind="vh", stage=_stage, profile=_prof, features="dudect")
+        _d.update(_extra)
+        PLANS[_p]["stages"].append(_d)
